@@ -179,7 +179,7 @@ def _kernel_call(text_, kernels):
     """first call `kernel ( ... )` of a known kernel in a normalised token string; returns (kernel, args string)"""
     best = None
     for k in kernels:
-        for m in re.finditer(r"(?<![\w.:])%s \(" % re.escape(k), text_):
+        for m in re.finditer(r"(?<![\w.])((?:\w+ :: )*)%s \(" % re.escape(k), text_):
             # balanced argument list
             i = m.end()
             d = 1
@@ -194,7 +194,8 @@ def _kernel_call(text_, kernels):
                     if d == 0:
                         break
                 out.append(t)
-            cand = (m.start(), k, " ".join(out).strip())
+            # a path-qualified call (cmp::max, std::cmp::min, ...) is a different function from the kernel
+            cand = (m.start(), (m.group(1) + k).replace(" ", ""), " ".join(out).strip())
             if best is None or cand[0] < best[0]:
                 best = cand
     return (best[1], best[2]) if best else (None, None)
